@@ -160,10 +160,30 @@ class C04(Prop):
                         want = [[v2, v, v2], v]
                     ops = []
                     exp = {"class": "ok", "value": enc_value(want)}
+            first_only = False
+            if v is not UNSUPPORTED and v is not None and rng.random() < 0.3 and [f for f in fields if f[0] != nm and f[2] is not UNSUPPORTED and f[2] is not None]:
+                # a SCRIPT variable of the same name takes precedence from the moment it exists - also when the field (or another
+                # field) has been read before in the same run, in a loop variable or a parameter of that name
+                others = [f for f in fields if f[0] != nm and f[2] is not UNSUPPORTED and f[2] is not None]
+                nm2, e2, v2 = rng.choice(others) if others else probe
+                shape = rng.randrange(5)
+                if shape == 0:
+                    src = "a = %s; %s = \"shadow\"; return [a, %s, $%s];" % (nm, nm, nm, nm); want = [v, "shadow", "shadow"]
+                elif shape == 1:
+                    src = "a = %s; %s = 5; b = %s; %s = b + 1; return [a, %s];" % (nm2, nm, nm, nm, nm); want = [v2, 6]
+                elif shape == 2:
+                    src = "a = %s; s = \"\"; foreach %s in [\"p\", \"q\"] { s = s + %s; } return [a, s];" % (nm2, nm, nm); want = [v2, "pq"]
+                elif shape == 3:
+                    src = "function f(%s) { x = %s; return [x, %s]; } return [%s, f(7)];" % (nm, nm2, nm, nm); want = [v, [v2, 7]]
+                else:
+                    src = "y = %s; if (true) { %s = 1; } x = %s; %s++; return [x, %s];" % (nm2, nm, nm, nm, nm); want = [1, 2]
+                ops = []
+                exp = {"class": "ok", "value": enc_value(want)}
+                first_only = shape in (0, 1, 4)       # the script's own global is still there in the third run
             allops = ops + ["prepare:" + rng.choice(["opt", "noopt"]), "exec:0", "exec:1", "exec:0"]
             k = len(ops) + 1
             expect = {}
-            for kk in (k, k + 2):     # first and third run: the same object again
+            for kk in ((k,) if first_only else (k, k + 2)):     # first and third run: the same object again
                 for f, val in exp.items():
                     expect["o%d.%s" % (kk, f)] = val
             out.append(Case("run", {"script": vlib.hx(src), "objs": obj + ";" + obj2, "ops": ";".join(allops)}, "fields",
